@@ -91,3 +91,185 @@ def expected_output(g, recs, order):
         keyed.append((sort_key(o, pos), "\t".join(fields) + "\tbo:i:%d\tsn:Z:%s\tiv:i:%d" % (o["bo"], o["sn"], o["inv"]), o))
     keyed.sort(key=lambda x: x[0])
     return keyed
+
+
+# ---- additions for C09 / C10 (new functions only) ----------------------------------------------------------------
+Z_ALPHABET = "ACGTacgt0123456789 :;,._-+*/#=<>|!?()[]{}~^%$&@'\"\\"
+
+
+def rich_tags(rng, mode, alen, pad=0):
+    """optional fields of one record and its CIGAR ('' = no cg:Z: field).  mode: none | cg | std | rich | mixed.
+    No value ends in white space (sort strips the end of the line; such lines are outside the domain)."""
+    if mode == "mixed":
+        mode = rng.choice(["none", "cg", "std", "rich", "rich"])
+    if mode == "none":
+        tags, cigar = [], ""
+    elif mode == "cg":
+        tags, cigar = [], None
+    elif mode == "std":
+        tags, cigar = ["tp:A:%s" % rng.choice("PSI"), "NM:i:%d" % rng.randint(0, 3)], None
+    else:
+        pool = ["tp:A:%s" % rng.choice("PSI"), "NM:i:%d" % rng.randint(-2, 30), "AS:i:%d" % rng.randint(-50, 500), "dv:f:%s" % rng.choice(["0.0123", "1e-3", "-1.5", ".5"]),
+                "id:f:0.%d" % rng.randint(0, 999), "zz:Z:%s" % _zval(rng, rng.randint(1, 12)), "bo:i:%d" % rng.randint(0, 9), "sn:Z:%s" % rng.choice(["chrX", "unknown", "a b"]),
+                "iv:i:%d" % rng.randint(0, 1), "bb:B:i,1,-2,3", "hx:H:1AE301", "ds:Z:=ACG*at+c", "e1:Z:"]
+        tags = rng.sample(pool, rng.randint(1, 5))
+        cigar = rng.choice([None, None, ""])
+        if cigar is None and alen > 2 and rng.random() < 0.5:
+            a = rng.randint(1, alen - 1)
+            cigar = "%d=%dX" % (a, alen - a)
+        if cigar == "" and tags[-1] == "e1:Z:":
+            pass  # an empty Z value at the end of the line is fine (no trailing blank)
+    if pad:
+        tags.insert(rng.randint(0, len(tags)), "pd:Z:" + _zval(rng, pad))
+    return tuple(tags), cigar
+
+
+def _zval(rng, n):
+    s = "".join(rng.choice(Z_ALPHABET) for _ in range(n))
+    return s.rstrip() + "x" if s != s.rstrip() or not s else s
+
+
+def make_case2(rng, n_records, n_chrom=1, untagged_frac=0.25, ref_mode="any", tag_mode="mixed", pad=0, dup_frac=0.0, max_steps=3, max_len=3):
+    """like make_case with more control: ref_mode any | all (every alignment touches a rank-0 node) | some_unknown (at least one touches none);
+    tag_mode see rich_tags; pad = length of a padding Z field (bulk for multi-block BGZF); dup_frac = share of byte-identical repeated lines"""
+    for _try in range(200):
+        g = make_rgfa(rng, n_ref=rng.randint(3, 5), max_len=max_len, n_bubbles=rng.randint(0, 2) if ref_mode != "some_unknown" else rng.randint(1, 3),
+                      inversion=rng.random() < 0.5, n_chrom=n_chrom, link_tags=False)
+        walks = g.walks(max_steps)
+        noref = [w for w in walks if not any(g.by_id[n].sr == 0 for n, _ in w)]
+        if ref_mode != "some_unknown" or noref:
+            break
+    else:
+        raise RuntimeError("no graph with a walk off the reference")
+    tag_graph(rng, g, untagged_frac)
+    withref = [w for w in walks if any(g.by_id[n].sr == 0 for n, _ in w)]
+    recs = []
+    for i in range(n_records):
+        if recs and rng.random() < dup_frac:
+            recs.append(recs[rng.randrange(len(recs))])
+            continue
+        if ref_mode == "all":
+            w = rng.choice(withref)
+        elif ref_mode == "some_unknown" and (i == 0 or rng.random() < 0.3):
+            w = rng.choice(noref)
+        else:
+            w = rng.choice(walks)
+        pl = sum(g.by_id[n].ln for n, _ in w)
+        ps = rng.randint(0, pl - 1)
+        pe = rng.randint(ps + 1, pl)
+        tags, cigar = rich_tags(rng, tag_mode, pe - ps, pad)
+        f = gaf_record(g, w, ps, pe, name="q%d" % i, tags=tags, cigar=cigar, strand=rng.choice("+-"), mapq=rng.choice([0, 1, 60, 255]))
+        assert f[-1] == f[-1].rstrip()
+        recs.append((w, ps, pe, f))
+    if ref_mode == "some_unknown":
+        rng.shuffle(recs)
+    return g, recs
+
+
+def expected_tagged(g, recs, order):
+    """the multiset (as sorted list) of lines the output must consist of, in no particular order"""
+    out = []
+    for i in order:
+        w, ps, pe, fields = recs[i]
+        o = oracle(g, w, ps, pe)
+        out.append("\t".join(fields) + "\tbo:i:%d\tsn:Z:%s\tiv:i:%d" % (o["bo"], o["sn"], o["inv"]))
+    return out
+
+
+def bgzf_blocks(path):
+    """independent BGZF reader (RFC 1952 members with the BC extra field): list of (compressed offset, uncompressed start, data)"""
+    import struct
+    import zlib
+    raw = open(path, "rb").read()
+    out, p, upos = [], 0, 0
+    while p < len(raw):
+        if raw[p:p + 4] != b"\x1f\x8b\x08\x04":
+            raise ValueError("not a BGZF block at %d" % p)
+        xlen = struct.unpack("<H", raw[p + 10:p + 12])[0]
+        extra, q, bsize = raw[p + 12:p + 12 + xlen], 0, None
+        while q < len(extra):
+            si1, si2, slen = extra[q], extra[q + 1], struct.unpack("<H", extra[q + 2:q + 4])[0]
+            if si1 == 66 and si2 == 67:
+                bsize = struct.unpack("<H", extra[q + 4:q + 6])[0] + 1
+            q += 4 + slen
+        if bsize is None:
+            raise ValueError("gzip member without BGZF BC field at %d" % p)
+        data = zlib.decompress(raw[p + 12 + xlen:p + bsize - 8], -15)
+        isize = struct.unpack("<I", raw[p + bsize - 4:p + bsize])[0]
+        if isize != len(data):
+            raise ValueError("BGZF block at %d: ISIZE %d but %d bytes" % (p, isize, len(data)))
+        out.append((p, upos, data))
+        upos += len(data)
+        p += bsize
+    return out
+
+
+def read_text_independent(path):
+    """file content as str; BGZF/gzip decoded with the python gzip module (not pysam)"""
+    import gzip
+    with open(path, "rb") as f:
+        magic = f.read(2)
+    if magic == b"\x1f\x8b":
+        return gzip.open(path, "rb").read().decode()
+    return open(path, "rb").read().decode()
+
+
+def split_records(txt):
+    """records of a GAF text: split on newline only; the text must end with a newline (returns None otherwise)"""
+    if txt == "":
+        return []
+    if not txt.endswith("\n"):
+        return None
+    return txt[:-1].split("\n")
+
+
+def case_dict(g, recs, order, **cfg):
+    d = {"gfa": g.lines(), "records": [r[3] for r in recs], "walks": [[list(x) for x in r[0]] for r in recs],
+         "ranges": [[r[1], r[2]] for r in recs], "order": list(order)}
+    d.update(cfg)
+    return d
+
+
+def case_from_dict(c):
+    """rebuild (graph view sufficient for the oracle, recs) from case_dict output"""
+    segs = []
+    for l in c["gfa"]:
+        p = l.split("\t")
+        if p[0] == "S":
+            t = {x.split(":")[0]: x.split(":", 2)[2] for x in p[3:]}
+            s = Seg(p[1], p[2], t.get("SN"), int(t.get("SO", 0)), int(t.get("SR", 0)), extra=[x for x in p[3:] if x[:2] in ("BO", "NO")])
+            s.bo, s.no = int(t["BO"]), int(t["NO"])
+            segs.append(s)
+    links = []
+    for l in c["gfa"]:
+        p = l.split("\t")
+        if p[0] == "L":
+            links.append((p[1], p[2], p[3], p[4], int(p[5][:-1]), tuple(p[6:])))
+    g = Graph(segs, links)
+    recs = [([tuple(x) for x in w], r[0], r[1], list(f)) for w, r, f in zip(c["walks"], c["ranges"], c["records"])]
+    return g, recs
+
+
+def fixed_graph():
+    """a hand-built two-chromosome tagged graph (no randomness): chr1 with a bubble (alt allele b1,b2 off the reference), an inversion link
+    and an untagged node; chr2 a plain chain with a deletion link.  Used for the exhaustive sections."""
+    S = []
+
+    def seg(i, seq, sn, so, sr, bo, no):
+        s = Seg(i, seq, sn, so, sr, extra=("BO:i:%d" % bo, "NO:i:%d" % no))
+        s.bo, s.no = bo, no
+        S.append(s)
+
+    seg("a1", "AC", "chr1", 0, 0, 0, 0)
+    seg("a2", "G", "chr1", 2, 0, 1, 1)
+    seg("a3", "TTA", "chr1", 3, 0, 2, 0)
+    seg("a4", "C", "chr1", 6, 0, -1, -1)
+    seg("b1", "GG", "hapA", 10, 1, 1, 2)
+    seg("b2", "A", "hapA", 12, 1, 1, 3)
+    seg("c1", "T", "chr2", 0, 0, 3, 0)
+    seg("c2", "CA", "chr2", 1, 0, 4, 1)
+    seg("c3", "G", "chr2", 3, 0, 5, 0)
+    L = [("a1", "+", "a2", "+", 0), ("a2", "+", "a3", "+", 0), ("a3", "+", "a4", "+", 0), ("a1", "+", "b1", "+", 0), ("b1", "+", "b2", "+", 0),
+         ("b2", "+", "a3", "+", 0), ("a1", "+", "a3", "-", 0), ("a2", "-", "a3", "+", 0), ("c1", "+", "c2", "+", 0), ("c2", "+", "c3", "+", 0),
+         ("c1", "+", "c3", "+", 0)]
+    return Graph(S, L)
